@@ -5,6 +5,7 @@ cd "$(dirname "$0")"
 /venv/bin/python translate/tables.py
 /venv/bin/python translate/latpar.py
 /venv/bin/python translate/screw.py
+/venv/bin/python translate/equiv.py
 /venv/bin/python translate/lookup.py
 /venv/bin/python translate/handlers.py
 /venv/bin/python translate/registry.py
